@@ -85,14 +85,14 @@ Lemma qtt_loop_shape p0 : forall k c A acc, chain (mc A) (rev acc) p0 -> Forall 
   chain (mc (snd res)) (rev (fst res)) p0 /\ Forall q2 (fst res) /\ 1 <= mc (snd res) /\ length (fst res) = length acc + k.
 Proof.
   induction k as [|k IH]; intros c A acc HC HF HA; cbn [qtt_loop].
-  - cbn [fst snd]. repeat split; auto. lia.
+  - cbn [fst snd]. split; [exact HC|]. split; [exact HF|]. split; [exact HA|lia].
   - destruct (Hs c (halve K A)) as (s1 & s2 & s3 & s4). destruct (msvd c (halve K A)) as [A' V]. cbn [fst snd] in *.
     specialize (IH (S c) A' (acc ++ [core_of_V K V (mc A)])). cbv zeta in IH.
     destruct IH as (i1 & i2 & i3 & i4).
     + rewrite rev_app_distr. cbn [rev app chain]. split; [cbn; congruence|exact HC].
     + apply Forall_app. split; [exact HF|]. constructor; [|constructor]. split; [reflexivity|]. split; [apply wfdat_mk|exact HA].
     + exact s4.
-    + repeat split; auto. rewrite i4, app_length. cbn [length]. lia.
+    + split; [exact i1|]. split; [exact i2|]. split; [exact i3|]. rewrite i4, app_length. cbn [length]. lia.
 Qed.
 
 Theorem core_tt_to_qtt_shape G k : cn G = 2 ^ S k -> 1 <= cr1 G -> 1 <= cr2 G ->
